@@ -17,7 +17,7 @@ pub struct CheckDef {
 }
 
 pub const CHECKS: &[CheckDef] = &[
-    CheckDef { id: "C01", quick_runs: 12000, thorough_runs: 50000, level: "exploration", title: "every interleaving outcome is explored" },
+    CheckDef { id: "C01", quick_runs: 12000, thorough_runs: 25000, level: "exploration", title: "every interleaving outcome is explored" },
     CheckDef { id: "C02", quick_runs: 3000, thorough_runs: 20000, level: "exploration", title: "every RC11-allowed outcome without load buffering is explored" },
     CheckDef { id: "C03", quick_runs: 3000, thorough_runs: 20000, level: "exploration", title: "every explored execution is RC11-consistent" },
     CheckDef { id: "C04", quick_runs: 6000, thorough_runs: 30000, level: "exploration", title: "data races are reported exactly" },
